@@ -80,6 +80,24 @@ EXTRA_CHECKS["C18"] = (TV,
     "at a symbolic argument position, literal or via a variable, in call statements, captures and 2..3-stage pipelines "
     "with exit statuses 0/3/200; expected argv/pipe/capture behaviour from the reference model; Bash only",
     trust_sh + "; the Batch counterpart (_ach through cmd /V:ON) is not claimed (no cmd.exe)", tech_sh)
+EXTRA_CHECKS["C15"] = (TV,
+    "the real pipeline compiles `import \"strings\"; print(strings.F(args))` for each of the 19 library functions; the "
+    "emitted script runs under ShSem with every string argument as symbolic bytes over {a,b,' '} (lengths 0..maxLen by "
+    "case split, counts -2..4); z3 decides per path that for every argument tuple the output equals what Go's strings "
+    "package returns (reference table computed natively)",
+    "trusted: ShSem (calibrated against /bin/bash), Go's strings package as reference; arguments travel through files so "
+    "that the source is concrete; counterexamples are re-run on the real bash; outside: longer arguments, other alphabets",
+    "SSA symbolic execution of the pipeline + ShSem; z3 decides output == reference table per path")
+EXTRA_CHECKS["C16"] = (MC,
+    "symbolic execution of the full pipeline for both targets on programs assembled from a menu of constructs covering "
+    "the whole language (every builtin, empty blocks, nested loops with break/continue, functions); Bash: the script is "
+    "accepted by ShSem's grammar (and `bash -n` on a sample and on every rejected script); Batch: structural invariants "
+    "on the emitted text (balanced parentheses, every goto/call target defined once, helpers present iff used, loop/if "
+    "jumps inside their construct)",
+    "trusted: ShSem's parser as Bash grammar of the emitted subset, the structural analysis of Batch text (label naming "
+    "as emitted); issues are re-checked on the native build's output; outside: programs not expressible with the menu "
+    "(2 slots quick / 3 thorough)",
+    "SSA execution with nondeterministic construct choice; structural assertions on the emitted scripts")
 EXTRA_CHECKS["C06"] = (MC,
     "symbolic execution of the real front-end and both back-ends on a table of typed positions x contexts; the offered "
     "expression is a variable whose declared type is 8 symbolic bytes (constrained to the 8 type spellings) or a call "
